@@ -142,6 +142,8 @@ struct World {
     std::map<std::string, std::unique_ptr<Susceptibility> > suscs;
     std::map<std::string, std::unique_ptr<Vertex4> > vertices;
     std::map<std::string, Operator> algebra;                              // C05 registers
+    bool repeat;                                                          // call prepare()/compute() a second time on every object (idempotence)
+    World() : repeat(false) {}
 
     ~World() {
         // dependants first
@@ -165,17 +167,17 @@ struct World {
 
     CreationOperator& cdag_sa(int i) {
         std::unique_ptr<CreationOperator>& p = sa_cdag[i];
-        if (!p) { p.reset(new CreationOperator(ic(), s(), h(), i)); p->prepare(); p->compute(); }
+        if (!p) { p.reset(new CreationOperator(ic(), s(), h(), i)); p->prepare(); p->compute(); if (repeat) { p->prepare(); p->compute(); } }
         return *p;
     }
     AnnihilationOperator& c_sa(int i) {
         std::unique_ptr<AnnihilationOperator>& p = sa_c[i];
-        if (!p) { p.reset(new AnnihilationOperator(ic(), s(), h(), i)); p->prepare(); p->compute(); }
+        if (!p) { p.reset(new AnnihilationOperator(ic(), s(), h(), i)); p->prepare(); p->compute(); if (repeat) { p->prepare(); p->compute(); } }
         return *p;
     }
     QuadraticOperator& quad_op(int i, int j) {
         std::unique_ptr<QuadraticOperator>& p = quad[std::make_pair(i, j)];
-        if (!p) { p.reset(new QuadraticOperator(ic(), s(), h(), i, j)); p->prepare(); p->compute(); }
+        if (!p) { p.reset(new QuadraticOperator(ic(), s(), h(), i, j)); p->prepare(); p->compute(); if (repeat) { p->prepare(); p->compute(); } }
         return *p;
     }
     const CreationOperator& cdag_of(const std::string& src, int i) {
@@ -491,8 +493,9 @@ static std::string exec_line(World*& W, long lineno, const std::string& line) {
         W->H.reset(new Hamiltonian(W->ic(), W->st(), W->s()));
         J.kvi("ok", 1); return J.done();
     }
-    if (cmd == "hprepare") { W->h().prepare(W->comm); J.kvi("ok", 1); return J.done(); }
-    if (cmd == "hcompute") { W->h().compute(W->comm); J.kvi("ok", 1); return J.done(); }
+    if (cmd == "repeat") { W->repeat = t.l() != 0; J.kvi("ok", 1); return J.done(); }
+    if (cmd == "hprepare") { W->h().prepare(W->comm); if (W->repeat) W->h().prepare(W->comm); J.kvi("ok", 1); return J.done(); }
+    if (cmd == "hcompute") { W->h().compute(W->comm); if (W->repeat) { W->h().prepare(W->comm); W->h().compute(W->comm); } J.kvi("ok", 1); return J.done(); }
     if (cmd == "hmatrix") {   // block matrices (H after prepare, eigenvectors after compute)
         int nb = W->s().NumberOfBlocks();
         std::string o = "[";
@@ -530,6 +533,7 @@ static std::string exec_line(World*& W, long lineno, const std::string& line) {
         double beta = t.d();
         W->rho.reset(new DensityMatrix(W->s(), W->h(), beta));
         W->rho->prepare(); W->rho->compute();
+        if (W->repeat) { W->rho->prepare(); W->rho->compute(); }
         J.kvi("ok", 1); return J.done();
     }
     if (cmd == "truncate") { double eps = t.d(); W->dm().truncateBlocks(eps, false); J.kvi("ok", 1); return J.done(); }
@@ -630,6 +634,7 @@ static std::string exec_line(World*& W, long lineno, const std::string& line) {
         } else {
             own.reset(new GreensFunction(W->s(), W->h(), W->c_of(src, i), W->cdag_of(src, j), W->dm()));
             own->prepare(); own->compute(); G = own.get();
+            if (W->repeat) { own->prepare(); own->compute(); }
         }
         J.kvi("vanishing", G->isVanishing() ? 1 : 0);
         J.kvi("i0", G->getIndex(0)); J.kvi("i1", G->getIndex(1));
@@ -654,6 +659,7 @@ static std::string exec_line(World*& W, long lineno, const std::string& line) {
         long a = t.l(), b = t.l(), c = t.l(), d = t.l();
         Susceptibility X(W->s(), W->h(), W->quad_op(a, b), W->quad_op(c, d), W->dm());
         X.prepare(); X.compute();
+        if (W->repeat) { X.prepare(); X.compute(); }
         J.kvi("vanishing", X.isVanishing() ? 1 : 0);
         while (t.more()) {
             std::string what = t.word();
@@ -703,6 +709,7 @@ static std::string exec_line(World*& W, long lineno, const std::string& line) {
         if (mode == "table") { std::vector<freq_tuple> f = read_freqs(t); table = X->compute(clear != 0, f, W->comm); }
         else if (mode == "default") { table = X->compute(); }
         else { table = X->compute(clear != 0, std::vector<freq_tuple>(), W->comm); }
+        if (W->repeat) { X->prepare(); (void)X->compute(clear != 0, std::vector<freq_tuple>(), W->comm); }   // no-ops on a computed object
         J.kvi("vanishing", X->isVanishing() ? 1 : 0); J.kvi("nparts", X->parts.size());
         J.kvraw("table", jcvec(table));
         std::string idx = "[" + jl(X->getIndex(0)) + "," + jl(X->getIndex(1)) + "," + jl(X->getIndex(2)) + "," + jl(X->getIndex(3)) + "]";
